@@ -503,9 +503,15 @@ impl<T: Storage> RawNode<T> {
             // The vote msg which makes this peer become leader has been sent after persisting.
             // So the remaining records must be generated during being candidate which can not
             // have last_entry and snapshot(if so, it should become follower).
+            // A peer whose own vote is a quorum sends no vote msg, though: it may become leader
+            // while a snapshot it restored as a follower is still being persisted. `hup` makes
+            // sure that its log is persisted up to the last index, so nothing depends on that
+            // record any more.
             for record in self.records.drain(..) {
                 assert_eq!(record.last_entry, None);
-                assert_eq!(record.snapshot, None);
+                if let Some((index, _)) = record.snapshot {
+                    assert!(index <= raft.raft_log.persisted);
+                }
             }
         }
 
